@@ -181,8 +181,12 @@ def run_child(job, hashseed, timeout, extra_env=None):
 
 
 def import_repo():
-  """Puts the repository under test first on sys.path (never bytecode-cached)."""
-  sys.dont_write_bytecode = True
+  """Puts the repository under test first on sys.path. Bytecode is never written into the
+  repository: either not at all, or (worker processes, which re-import the repository once per
+  simulated process) under the worker's own scratch directory via sys.pycache_prefix, where it
+  is validated against the source files as usual and removed with the scratch directory."""
+  if not sys.pycache_prefix:
+    sys.dont_write_bytecode = True
   if REPO not in sys.path:
     sys.path.insert(0, REPO)
 
